@@ -1,7 +1,599 @@
-//! placeholder: verifies the els hooks compile; replaced by the C28 harness.
+//! C28: the language server's document copy under didOpen/didChange histories.
+//!
+//! line: id \t <case> \t <impl output>
+//!   case  ::= [(e2e)] (open V "<text>") (note V <change>…)… [(probes (L C)…)]
+//!   change::= (ch SL SC EL EC "<text>") | (full "<text>")
+//!   output::= (docs "<after open>" "<after note 1>" …) (ver V | crash <kind>) (idx I…)
+//! Unit cases call the hooked code in-process: `FileCache::verif_update` (didOpen path),
+//! `FileCache::verif_incremental_update` (didChange path), `els::verif_pos_to_byte_index` (probes), and read the
+//! copy back from the cache entry and from `erg_common::vfs::VFS`.
+//! `(e2e)` cases send the same notifications as JSON through `els::Server::bind_fake_client()` and read the copy
+//! back from the server's file cache and `VFS`; afterwards a hover request must still be answered.
+use erg_common::vfs::VFS;
 use erg_harness::*;
+use els::verif_hooks::FileCache;
+use els::{NormalizedUrl, Server};
+use lsp_types::{
+    DidChangeTextDocumentParams, DidOpenTextDocumentParams, Position, Range, TextDocumentContentChangeEvent,
+    TextDocumentItem, Url, VersionedTextDocumentIdentifier,
+};
+use std::panic::AssertUnwindSafe;
+use std::sync::atomic::{AtomicUsize, Ordering};
+
+// ------------------------------------------------------------------------------------------- case syntax
+
+#[derive(Clone, Debug)]
+enum Ch {
+    Ranged(u32, u32, u32, u32, String),
+    Full(String),
+}
+#[derive(Clone, Debug)]
+struct Note {
+    ver: i32,
+    changes: Vec<Ch>,
+}
+#[derive(Clone, Debug)]
+struct Case {
+    e2e: bool,
+    open_ver: i32,
+    text: String,
+    notes: Vec<Note>,
+    probes: Vec<(u32, u32)>,
+}
+
+fn print_case(c: &Case) -> String {
+    let mut o = String::new();
+    if c.e2e {
+        o.push_str("(e2e) ");
+    }
+    o.push_str(&format!("(open {} {})", c.open_ver, quote(&c.text)));
+    for n in &c.notes {
+        o.push_str(&format!(" (note {}", n.ver));
+        for ch in &n.changes {
+            match ch {
+                Ch::Ranged(a, b, c_, d, t) => o.push_str(&format!(" (ch {} {} {} {} {})", a, b, c_, d, quote(t))),
+                Ch::Full(t) => o.push_str(&format!(" (full {})", quote(t))),
+            }
+        }
+        o.push(')');
+    }
+    if !c.probes.is_empty() {
+        o.push_str(" (probes");
+        for (l, ch) in &c.probes {
+            o.push_str(&format!(" ({} {})", l, ch));
+        }
+        o.push(')');
+    }
+    o
+}
+
+/// minimal S-expression reader for replay (atoms, quoted strings, lists)
+#[derive(Debug, Clone)]
+enum Sx {
+    A(String),
+    S(String),
+    L(Vec<Sx>),
+}
+fn parse_sx(cs: &[char], i: &mut usize) -> Option<Sx> {
+    while *i < cs.len() && cs[*i].is_whitespace() {
+        *i += 1;
+    }
+    if *i >= cs.len() {
+        return None;
+    }
+    match cs[*i] {
+        '(' => {
+            *i += 1;
+            let mut v = vec![];
+            loop {
+                while *i < cs.len() && cs[*i].is_whitespace() {
+                    *i += 1;
+                }
+                if *i >= cs.len() {
+                    return None;
+                }
+                if cs[*i] == ')' {
+                    *i += 1;
+                    return Some(Sx::L(v));
+                }
+                v.push(parse_sx(cs, i)?);
+            }
+        }
+        ')' => None,
+        '"' => {
+            let st = *i;
+            *i += 1;
+            while *i < cs.len() && cs[*i] != '"' {
+                if cs[*i] == '\\' {
+                    *i += 1;
+                }
+                *i += 1;
+            }
+            *i += 1;
+            let lit: String = cs.get(st..*i)?.iter().collect();
+            Some(Sx::S(unquote(&lit)?))
+        }
+        _ => {
+            let st = *i;
+            while *i < cs.len() && !cs[*i].is_whitespace() && cs[*i] != '(' && cs[*i] != ')' && cs[*i] != '"' {
+                *i += 1;
+            }
+            Some(Sx::A(cs[st..*i].iter().collect()))
+        }
+    }
+}
+fn atom_num<T: std::str::FromStr>(s: &Sx) -> Option<T> {
+    if let Sx::A(a) = s { a.parse().ok() } else { None }
+}
+fn parse_case(input: &str) -> Option<Case> {
+    let cs: Vec<char> = input.chars().collect();
+    let mut i = 0;
+    let mut case = Case { e2e: false, open_ver: 0, text: String::new(), notes: vec![], probes: vec![] };
+    let mut opened = false;
+    while let Some(sx) = parse_sx(&cs, &mut i) {
+        let Sx::L(items) = sx else { return None };
+        let Some(Sx::A(head)) = items.first() else { return None };
+        match head.as_str() {
+            "e2e" => case.e2e = true,
+            "open" => {
+                case.open_ver = atom_num(items.get(1)?)?;
+                let Sx::S(t) = items.get(2)? else { return None };
+                case.text = t.clone();
+                opened = true;
+            }
+            "note" => {
+                let mut n = Note { ver: atom_num(items.get(1)?)?, changes: vec![] };
+                for c in &items[2..] {
+                    let Sx::L(f) = c else { return None };
+                    match f.first()? {
+                        Sx::A(k) if k == "ch" => {
+                            let Sx::S(t) = f.get(5)? else { return None };
+                            n.changes.push(Ch::Ranged(atom_num(f.get(1)?)?, atom_num(f.get(2)?)?, atom_num(f.get(3)?)?, atom_num(f.get(4)?)?, t.clone()));
+                        }
+                        Sx::A(k) if k == "full" => {
+                            let Sx::S(t) = f.get(1)? else { return None };
+                            n.changes.push(Ch::Full(t.clone()));
+                        }
+                        _ => return None,
+                    }
+                }
+                case.notes.push(n);
+            }
+            "probes" => {
+                for p in &items[1..] {
+                    let Sx::L(f) = p else { return None };
+                    case.probes.push((atom_num(f.first()?)?, atom_num(f.get(1)?)?));
+                }
+            }
+            _ => return None,
+        }
+    }
+    if opened { Some(case) } else { None }
+}
+
+// ------------------------------------------------------------------------------------------- running the real code
+
+fn crash_kind(msg: &str) -> String {
+    // panic messages of String::replace_range / slice::range (std), mapped to the model's crash sites
+    if msg.contains("start of range should be a character boundary") || msg.contains("is_char_boundary(n)") {
+        "start-boundary".into()
+    } else if msg.contains("end of range should be a character boundary") {
+        "end-boundary".into()
+    } else if msg.contains("slice index starts at") {
+        "order".into()
+    } else if msg.contains("out of range for slice of length") {
+        "oob".into()
+    } else {
+        format!("other:{}", quote(msg))
+    }
+}
+
+fn lsp_change(ch: &Ch) -> TextDocumentContentChangeEvent {
+    match ch {
+        Ch::Ranged(a, b, c, d, t) => TextDocumentContentChangeEvent {
+            range: Some(Range::new(Position::new(*a, *b), Position::new(*c, *d))),
+            range_length: None,
+            text: t.clone(),
+        },
+        Ch::Full(t) => TextDocumentContentChangeEvent { range: None, range_length: None, text: t.clone() },
+    }
+}
+
+fn change_params(url: &Url, n: &Note) -> DidChangeTextDocumentParams {
+    DidChangeTextDocumentParams {
+        text_document: VersionedTextDocumentIdentifier::new(url.clone(), n.ver),
+        content_changes: n.changes.iter().map(lsp_change).collect(),
+    }
+}
+
+fn probes_out(text: &str, probes: &[(u32, u32)]) -> String {
+    let mut o = String::from("(idx");
+    for (l, c) in probes {
+        let t = text.to_string();
+        let (l, c) = (*l, *c);
+        match catch(move || els::verif_pos_to_byte_index(&t, Position::new(l, c))) {
+            Ok(i) => o.push_str(&format!(" {}", i)),
+            Err(e) => o.push_str(&format!(" crash:{}", crash_kind(&e))),
+        }
+    }
+    o.push(')');
+    o
+}
+
+/// the observable: the cache entry's text, which must agree with `VFS.read` of the same path
+fn read_copy(fc: &FileCache, uri: &NormalizedUrl) -> String {
+    let entry = fc.files.borrow().get(uri).map(|e| (e.code.clone(), e.ver));
+    let vfs = VFS.read(uri.to_file_path().unwrap()).ok();
+    match (entry, vfs) {
+        (Some((code, _)), Some(v)) if code == v => code,
+        (e, v) => format!("<<cache/VFS mismatch: cache={:?} vfs={:?}>>", e.map(|x| x.0), v),
+    }
+}
+fn read_ver(fc: &FileCache, uri: &NormalizedUrl) -> String {
+    match fc.get_ver(uri) {
+        Some(v) => v.to_string(),
+        None => "none".into(),
+    }
+}
+
+static UNIT_SEQ: AtomicUsize = AtomicUsize::new(0);
+
+fn finish(docs: &[String], tail: &str, idx: &str) -> String {
+    let mut o = String::from("(docs");
+    for d in docs {
+        o.push(' ');
+        o.push_str(&quote(d));
+    }
+    o.push_str(") ");
+    o.push_str(tail);
+    o.push(' ');
+    o.push_str(idx);
+    o
+}
+
+fn run_unit(case: &Case) -> String {
+    let k = UNIT_SEQ.fetch_add(1, Ordering::Relaxed);
+    let url = Url::from_file_path(format!("/c28-unit/doc{}.er", k % 64)).unwrap();
+    let uri = NormalizedUrl::new(url.clone());
+    VFS.remove(uri.to_file_path().unwrap());
+    // log lines of the cache go to this channel, not to our stdout
+    let (tx, _rx) = std::sync::mpsc::channel();
+    let fc = FileCache::new(Some(tx));
+    let idx = probes_out(&case.text, &case.probes);
+    let mut docs = vec![];
+    let (text, ver) = (case.text.clone(), case.open_ver);
+    if let Err(e) = catch(AssertUnwindSafe(|| fc.verif_update(&uri, text, Some(ver)))) {
+        return finish(&docs, &format!("(crash {})", crash_kind(&e)), &idx);
+    }
+    docs.push(read_copy(&fc, &uri));
+    for n in &case.notes {
+        let params = change_params(&url, n);
+        if let Err(e) = catch(AssertUnwindSafe(|| fc.verif_incremental_update(params))) {
+            return finish(&docs, &format!("(crash {})", crash_kind(&e)), &idx);
+        }
+        docs.push(read_copy(&fc, &uri));
+    }
+    let v = read_ver(&fc, &uri);
+    finish(&docs, &format!("(ver {})", v), &idx)
+}
+
+// end-to-end: one server per batch of cases, one URI per case
+struct E2e {
+    client: molc::FakeClient<Server>,
+    req_id: i64,
+    dir: std::path::PathBuf,
+    seq: usize,
+}
+
+impl E2e {
+    fn start() -> Result<E2e, String> {
+        let dir = std::env::temp_dir().join(format!("c28-e2e-{}", std::process::id()));
+        std::fs::create_dir_all(&dir).map_err(|e| e.to_string())?;
+        // the server scans the current directory for *.er files at start-up: give it an empty one
+        std::env::set_current_dir(&dir).map_err(|e| e.to_string())?;
+        let mut client = Server::bind_fake_client();
+        client.request_initialize().map_err(|e| e.to_string())?;
+        client.notify_initialized().map_err(|e| e.to_string())?;
+        Ok(E2e { client, req_id: 1, dir, seq: 0 })
+    }
+
+    fn alive(&mut self, url: &Url) -> bool {
+        // "keeps running": a request sent after the history is still answered
+        let msg = serde_json::json!({
+            "jsonrpc": "2.0", "id": self.req_id, "method": "textDocument/hover",
+            "params": { "textDocument": { "uri": url.to_string() }, "position": { "line": 0, "character": 0 } },
+        });
+        let client = &mut self.client;
+        let sent = catch(AssertUnwindSafe(|| client.server.dispatch(msg).is_ok()));
+        if !matches!(sent, Ok(true)) {
+            return false;
+        }
+        match self.client.wait_with_timeout::<Option<lsp_types::Hover>>(std::time::Duration::from_secs(20)) {
+            Ok(Some(_)) => {
+                self.req_id += 1;
+                true
+            }
+            _ => false,
+        }
+    }
+
+    fn run(&mut self, case: &Case) -> String {
+        self.seq += 1;
+        let path = self.dir.join(format!("doc{}.er", self.seq));
+        let url = Url::from_file_path(&path).unwrap();
+        let uri = NormalizedUrl::new(url.clone());
+        let idx = probes_out(&case.text, &case.probes);
+        let mut docs = vec![];
+        let open = DidOpenTextDocumentParams {
+            text_document: TextDocumentItem::new(url.clone(), "erg".to_string(), case.open_ver, case.text.clone()),
+        };
+        let client = &mut self.client;
+        let r = catch(AssertUnwindSafe(|| {
+            client.server.dispatch(serde_json::json!({"jsonrpc": "2.0", "method": "textDocument/didOpen", "params": open}))
+                .map_err(|e| e.to_string())
+        }));
+        match r {
+            Err(e) => return finish(&docs, &format!("(crash {})", crash_kind(&e)), &idx),
+            Ok(Err(e)) => return finish(&docs, &format!("(error {})", quote(&e)), &idx),
+            Ok(Ok(())) => {}
+        }
+        docs.push(read_copy(self.client.server.get_file_cache(), &uri));
+        for n in &case.notes {
+            let params = change_params(&url, n);
+            let client = &mut self.client;
+            let r = catch(AssertUnwindSafe(|| {
+                client.server.dispatch(serde_json::json!({"jsonrpc": "2.0", "method": "textDocument/didChange", "params": params}))
+                    .map_err(|e| e.to_string())
+            }));
+            match r {
+                Err(e) => return finish(&docs, &format!("(crash {})", crash_kind(&e)), &idx),
+                Ok(Err(e)) => return finish(&docs, &format!("(error {})", quote(&e)), &idx),
+                Ok(Ok(())) => {}
+            }
+            docs.push(read_copy(self.client.server.get_file_cache(), &uri));
+        }
+        let v = read_ver(self.client.server.get_file_cache(), &uri);
+        if !self.alive(&url) {
+            return finish(&docs, "(crash not-answering)", &idx);
+        }
+        finish(&docs, &format!("(ver {})", v), &idx)
+    }
+}
+
+// ------------------------------------------------------------------------------------------- generators
+
+const ASCII: &[&str] = &["a", "b", "x", "=", "1", " ", "#", "(", ")", ".", "\t"];
+const BMP: &[&str] = &["é", "あ", "ß", "\u{301}", "\u{ffff}", "語"];
+const ASTRAL: &[&str] = &["😀", "𝒳", "\u{10000}", "\u{10ffff}"];
+const ERG_LINES: &[&str] = &["x = 1", "# あ", "# 😀 note", "print! x", "f y = y + 1", "s = 'é'", "l = [1, 2]", "    x", "#"];
+
+fn pk(rng: &mut Rng, xs: &[&'static str]) -> &'static str {
+    xs[rng.below(xs.len() as u64) as usize]
+}
+fn gen_piece(rng: &mut Rng) -> &'static str {
+    match rng.below(100) {
+        0..=54 => pk(rng, ASCII),
+        55..=74 => pk(rng, BMP),
+        75..=94 => pk(rng, ASTRAL),
+        _ => "\n",
+    }
+}
+fn gen_eol(rng: &mut Rng, crlf_doc: bool) -> &'static str {
+    if crlf_doc {
+        if rng.chance(9, 10) { "\r\n" } else { "\n" }
+    } else {
+        match rng.below(40) { 0 => "\r\n", 1 => "\r", _ => "\n" }
+    }
+}
+fn gen_line(rng: &mut Rng) -> String {
+    if rng.chance(1, 3) {
+        return pk(rng, ERG_LINES).to_string();
+    }
+    let mut s = String::new();
+    for _ in 0..rng.below(9) {
+        let p = gen_piece(rng);
+        if p != "\n" { s.push_str(p); }
+    }
+    s
+}
+fn gen_doc(rng: &mut Rng) -> String {
+    let crlf = rng.chance(1, 6);
+    let nlines = match rng.below(10) { 0 => 0, 1 => 1, _ => 1 + rng.below(6) };
+    let mut s = String::new();
+    for i in 0..nlines {
+        s.push_str(&gen_line(rng));
+        if i + 1 < nlines || rng.chance(1, 2) {
+            s.push_str(gen_eol(rng, crlf));
+        }
+    }
+    if rng.chance(1, 6) { s.push_str(pk(rng, BMP)); }
+    if rng.chance(1, 6) { s.push_str(pk(rng, ASTRAL)); }
+    s
+}
+fn gen_text(rng: &mut Rng) -> String {
+    let mut s = String::new();
+    let n = match rng.below(10) { 0..=2 => 0, 3..=6 => 1, _ => 2 + rng.below(4) };
+    for _ in 0..n {
+        let p = gen_piece(rng);
+        if p == "\n" { s.push_str(gen_eol(rng, false)); } else { s.push_str(p); }
+    }
+    s
+}
+
+/// lines of `text` as the client sees them (content without terminator), LSP line terminators
+fn lsp_lines(text: &str) -> Vec<String> {
+    let mut lines = vec![String::new()];
+    let cs: Vec<char> = text.chars().collect();
+    let mut i = 0;
+    while i < cs.len() {
+        if cs[i] == '\r' || cs[i] == '\n' {
+            if cs[i] == '\r' && i + 1 < cs.len() && cs[i + 1] == '\n' { i += 1; }
+            lines.push(String::new());
+        } else {
+            lines.last_mut().unwrap().push(cs[i]);
+        }
+        i += 1;
+    }
+    lines
+}
+
+/// a position in `text`: mostly exact, with the boundary shapes the property names
+fn gen_pos(rng: &mut Rng, text: &str) -> (u32, u32) {
+    let lines = lsp_lines(text);
+    let nl = lines.len() as u64;
+    let line = match rng.below(20) {
+        0 => nl,                         // one past the last line
+        1 => nl + 1 + rng.below(4),      // further past
+        2 | 3 => nl - 1,                 // last line
+        _ => rng.below(nl),
+    };
+    let content: Vec<char> = lines.get(line as usize).map(|l| l.chars().collect()).unwrap_or_default();
+    let units: u64 = content.iter().map(|c| c.len_utf16() as u64).sum();
+    let col = match rng.below(20) {
+        0 | 1 => units,                              // end of line
+        2 => units + 1 + rng.below(3),               // just past the end of the line (between \r and \n for CRLF)
+        3 => [99u64, 65535, 4294967295][rng.below(3) as usize], // "end of line" idioms
+        4 => 0,
+        5 => {
+            // inside a surrogate pair (not LSP-conformant; exercised for totality)
+            let mut u = 0;
+            let mut hit = None;
+            for c in &content {
+                if c.len_utf16() == 2 { hit = Some(u + 1); if rng.chance(1, 2) { break; } }
+                u += c.len_utf16() as u64;
+            }
+            hit.unwrap_or(units)
+        }
+        _ => {
+            // exact character boundary
+            let k = rng.below(content.len() as u64 + 1) as usize;
+            content[..k].iter().map(|c| c.len_utf16() as u64).sum()
+        }
+    };
+    (line as u32, col as u32)
+}
+
+fn gen_change(rng: &mut Rng, text: &str) -> Ch {
+    if rng.chance(1, 16) {
+        return Ch::Full(if rng.chance(1, 2) { gen_doc(rng) } else { gen_text(rng) });
+    }
+    let p = gen_pos(rng, text);
+    let q = match rng.below(10) {
+        0..=3 => p,                       // insertion
+        _ => gen_pos(rng, text),
+    };
+    let (mut s, mut e) = if p <= q { (p, q) } else { (q, p) };
+    if rng.chance(1, 60) && s != e {
+        std::mem::swap(&mut s, &mut e);   // reversed range: not LSP-conformant
+    }
+    let t = if s != e && rng.chance(1, 3) { String::new() } else { gen_text(rng) };
+    Ch::Ranged(s.0, s.1, e.0, e.1, t)
+}
+
+/// builds a case step by step: positions of each change are chosen in the copy the real code holds at that point
+/// (changes of one notification: in the text obtained by applying the earlier ones with the hooked code)
+fn gen_case(rng: &mut Rng, e2e: bool) -> Case {
+    let text = if e2e {
+        // end-to-end documents are analysed by the compiler on didOpen: keep them erg-like
+        let mut s = String::new();
+        for _ in 0..1 + rng.below(4) {
+            s.push_str(pk(rng, ERG_LINES));
+            s.push_str(if rng.chance(1, 8) { "\r\n" } else { "\n" });
+        }
+        if rng.chance(1, 2) { s.push_str(pk(rng, &["# あ", "# 😀", "x = 1", "# é"])); }
+        s
+    } else {
+        gen_doc(rng)
+    };
+    let mut case = Case { e2e, open_ver: rng.range(0, 3) as i32, text: text.clone(), notes: vec![], probes: vec![] };
+    for _ in 0..rng.below(5) {
+        case.probes.push(gen_pos(rng, &text));
+    }
+    let (tx, _rx) = std::sync::mpsc::channel();
+    let fc = FileCache::new(Some(tx));
+    let url = Url::from_file_path("/c28-gen/doc.er").unwrap();
+    let uri = NormalizedUrl::new(url.clone());
+    let mut ver = case.open_ver;
+    let mut cur = text;
+    let nnotes = if e2e { 1 + rng.below(4) } else { match rng.below(8) { 0 => 0, 1 | 2 => 1, _ => 1 + rng.below(6) } };
+    'notes: for _ in 0..nnotes {
+        ver = match rng.below(30) { 0 => ver, 1 => ver - 1, 2 => ver + 5, _ => ver + 1 };
+        let nch = match rng.below(25) { 0..=14 => 1, 15..=20 => 2, 21..=23 => 3, _ => 0 };
+        let mut note = Note { ver, changes: vec![] };
+        let mut tmp = cur.clone();
+        for _ in 0..nch {
+            let ch = gen_change(rng, &tmp);
+            // advance `tmp` with the real code (fresh entry, single change); on a crash the case ends here
+            let t0 = tmp.clone();
+            let one = Note { ver: 1, changes: vec![ch.clone()] };
+            let params = change_params(&url, &one);
+            let r = catch(AssertUnwindSafe(|| {
+                fc.files.borrow_mut().remove(&uri);
+                fc.verif_update(&uri, t0, Some(0));
+                fc.verif_incremental_update(params);
+                fc.files.borrow().get(&uri).map(|e| e.code.clone()).unwrap_or_default()
+            }));
+            note.changes.push(ch);
+            match r {
+                Ok(t) => tmp = t,
+                Err(_) => { case.notes.push(note); break 'notes; }
+            }
+        }
+        case.notes.push(note);
+        cur = tmp;
+    }
+    case
+}
+
 fn main() {
-    let _ = parse_args();
-    let p = els::verif_pos_to_byte_index("x = 1\n", lsp_types::Position::new(0, 2));
-    println!("{}", p);
+    quiet_panics();
+    let a = parse_args();
+    match a.mode.as_str() {
+        "gen" => {
+            let mut rng = Rng::new(a.seed);
+            let n_e2e = a.rest.iter().position(|x| x == "--e2e").and_then(|i| a.rest.get(i + 1)).and_then(|s| s.parse::<usize>().ok()).unwrap_or(0);
+            for i in 0..a.n {
+                let c = gen_case(&mut rng, false);
+                println!("g{}\t{}\t{}", i, print_case(&c), run_unit(&c));
+            }
+            if n_e2e > 0 {
+                let mut rng = Rng::new(a.seed ^ 0xE2E);
+                match E2e::start() {
+                    Ok(mut srv) => {
+                        for i in 0..n_e2e {
+                            let c = gen_case(&mut rng, true);
+                            println!("e{}\t{}\t{}", i, print_case(&c), srv.run(&c));
+                        }
+                        let _ = std::fs::remove_dir_all(&srv.dir);
+                    }
+                    Err(e) => println!("e0\t(e2e) (open 0 \"\")\tserver-start-failed({})", quote(&e)),
+                }
+            }
+            use std::io::Write;
+            let _ = std::io::stdout().flush();
+            // the server's worker threads never exit
+            std::process::exit(0);
+        }
+        "replay" => {
+            let mut srv: Option<E2e> = None;
+            for (id, input) in stdin_cases() {
+                match parse_case(&input) {
+                    Some(c) if c.e2e => {
+                        if srv.is_none() { srv = E2e::start().ok(); }
+                        match srv.as_mut() {
+                            Some(s) => println!("{}\t{}\t{}", id, input, s.run(&c)),
+                            None => println!("{}\t{}\tserver-start-failed", id, input),
+                        }
+                    }
+                    Some(c) => println!("{}\t{}\t{}", id, input, run_unit(&c)),
+                    None => println!("{}\t{}\tbad-input", id, input),
+                }
+            }
+            if let Some(s) = &srv { let _ = std::fs::remove_dir_all(&s.dir); }
+            use std::io::Write;
+            let _ = std::io::stdout().flush();
+            std::process::exit(0);
+        }
+        _ => { eprintln!("usage: c28 gen|replay"); std::process::exit(2); }
+    }
 }
